@@ -12,7 +12,8 @@
      delivered t / fed t concatenation of the chunks delivered to the reader / fed by the sender.
    Chunks are byte strings, their length is lenN, the limit is the constant of the Rust source. *)
 From AV Require Import Lib.Base Gen.Consts H1.Payload H1.PayloadSpec H1.PayloadProofs
-  H1.PayloadProofsBytes H1.PayloadProofsEnding H1.PayloadProofsWake H1.PayloadProofsKnown.
+  H1.PayloadProofsBytes H1.PayloadProofsEnding H1.PayloadProofsWake H1.PayloadProofsKnown
+  Gen.PayloadTables H1.PayloadTie.
 
 Definition LIMIT : N := H1_PAYLOAD_MAX_BUFFER_SIZE.
 Definition chunk_bytes (c : bytes) : bytes := c.
@@ -194,6 +195,52 @@ Theorem C07_reader_drop_wakes_nobody : forall s s' x w,
   step s OReaderDrop = (s', x, w) -> w = [].
 Proof.
   intros [[i|] snd] s' x w H; cbn in H; inversion H; reflexivity.
+Qed.
+
+(* ---------------------------------------------------------------- the model IS the source
+
+   Gen/PayloadTables.v is regenerated from actix-http/src/h1/payload.rs on every check run
+   (tools/gen/payload.py): each function body as its statements in source order, the tests of
+   Inner::poll_next in source order, the operator and operand of `self.need_read = self.len <
+   MAX_BUFFER_SIZE`, every wake()/wake_io() call site, the `len +=` / `len -=` lines.
+   H1/PayloadTie.v interprets those tables over the model's state. The theorems below say that
+   the interpretation equals the model's functions, for every state: permuting the tests,
+   changing `<` into `<=`, or deleting a wake call or a bookkeeping line in the Rust source
+   changes the table and breaks them. *)
+
+(* Inner::poll_next: test order items / err.take() / eof / else; `len -= data.len()` (checked);
+   need_read = len < MAX_BUFFER_SIZE; register only if need_read && !eof; wake_io() after a pop
+   and in the Pending branch; nothing woken on Err / None. *)
+Theorem C07_source_tie_poll_next : forall cx (i : Inner bytes),
+  interp_poll lenN PAYLOAD_POLL_NEXT cx i = poll_next lenN LIMIT cx i /\
+  PAYLOAD_POLL_NEXT_ORDER = [TItemsPopFront; TErrTake; TEof; TElse].
+Proof. intros cx i. split; [apply tie_poll_next | apply tie_poll_order]. Qed.
+
+(* the feeding side: feed_data (len += data.len(); push_back; need_read = len < MAX; wake()),
+   feed_eof / set_error (flags, then wake()), close_sender, Drop for PayloadSender, and
+   need_read (Read iff the flag is set, otherwise register_io + Pause; Dropped without reader) *)
+Theorem C07_source_tie_sender_side : forall (d : bytes) e cx (i : Inner bytes) (s : sys bytes),
+  exec_items lenN (mkEnv (Some d) 0 EIncomplete None) PAYLOAD_FEED_DATA (i, []) = Val (feed_data lenN LIMIT d i) /\
+  exec_items lenN (env0 0) PAYLOAD_FEED_EOF (i, []) = Val (feed_eof i) /\
+  exec_items lenN (mkEnv None 0 e None) PAYLOAD_SET_ERROR (i, []) = Val (set_error e i) /\
+  exec_items lenN (env0 0) PAYLOAD_CLOSE_SENDER (i, []) = Val (close_sender i) /\
+  (sender s = true -> interp_sender_drop lenN PAYLOAD_SENDER_DROP s = Some (step s OSenderDrop)) /\
+  (sender s = true -> interp_need_read lenN PAYLOAD_NEED_READ cx s = Some (step s (ONeedRead cx))).
+Proof.
+  intros d e cx i s.
+  repeat split; first [apply tie_feed_data | apply tie_feed_eof | apply tie_set_error
+                      | apply tie_close_sender | apply tie_sender_drop | apply tie_need_read].
+Qed.
+
+(* the helpers: wake / wake_io take the stored waker and wake it; unread_data; the constant *)
+Theorem C07_source_tie_helpers : forall (d : bytes) (i : Inner bytes),
+  exec_items lenN (env0 0) PAYLOAD_WAKE (i, []) = Val (wake i) /\
+  exec_items lenN (env0 0) PAYLOAD_WAKE_IO (i, []) = Val (wake_io i) /\
+  exec_items lenN (mkEnv (Some d) 0 EIncomplete None) PAYLOAD_UNREAD_DATA (i, []) = Val (unread_data lenN d i, []) /\
+  PAYLOAD_MAX_BUFFER_SIZE = LIMIT.
+Proof.
+  intros d i.
+  repeat split; first [apply tie_wake | apply tie_wake_io | apply tie_unread_data].
 Qed.
 
 (* ---------------------------------------------------------------- non-vacuity *)
